@@ -164,12 +164,16 @@ def sectionStart (fl : Flavor) (m : UMesh) (i : Nat) : Nat := ((sections fl m).t
 
 /-! ## serial reader: `ref_import_bin_ugrid` -/
 
+/-- the value of the `w` bytes of one word as read from the file: the swap macro for the big-endian flavours, then the
+    machine's (little-endian) interpretation -/
+def decWord (fl : Flavor) (w : Nat) (b : Bytes) : Nat :=
+  decLE (if fl.swap then applyPerm (if w = 8 then Endian.swap_long else Endian.swap_int) b else b)
+
 /-- `fread` of one `w`-byte word + the swap macro -/
 def rdWord (fl : Flavor) (w : Nat) : P Nat := fun s =>
   match takeN w s with
   | .error e => .error e
-  | .ok (a, r) =>
-    .ok (decLE (if fl.swap then applyPerm (if w = 8 then Endian.swap_long else Endian.swap_int) a else a), r)
+  | .ok (a, r) => .ok (decWord fl w a, r)
 
 /-- `ref_import_bin_ugrid_chunk` for one item: `int`, or `long` truncated by `(REF_INT)actual[i]` -/
 def rdInt (fl : Flavor) : P Int := fun s =>
@@ -351,10 +355,7 @@ def pread (bs : Bytes) (pos : Int) (n : Nat) : Except Status Bytes :=
 /-- `w`-byte words of `a` after the swap macro, as signed values -/
 def wordsOf (fl : Flavor) (w : Nat) : Nat → Bytes → List Int
   | 0, _ => []
-  | n + 1, a =>
-    let b := a.take w
-    toSigned (8 * w) (decLE (if fl.swap then applyPerm (if w = 8 then Endian.swap_long else Endian.swap_int) b else b))
-      :: wordsOf fl w n (a.drop w)
+  | n + 1, a => toSigned (8 * w) (decWord fl w (a.take w)) :: wordsOf fl w n (a.drop w)
 
 /-- the (conn, faceid) offsets ref_part_bin_ugrid hands to ref_part_bin_ugrid_cell for kind `k` (generated) -/
 def offsetsOf (k : Kind) (ib : Int) (h : List Int) : Int × Int :=
